@@ -14,3 +14,6 @@ fn internal_error<S: Display + Debug + Sync + Send + 'static>(reason: S) -> Erro
 
 pub use freezer::Freezer;
 pub use freezer_files::FreezerFilesBuilder;
+/// verification hook (off unless built with `--cfg ckb_verif`): name the files type for external harnesses
+#[cfg(ckb_verif)]
+pub use freezer_files::FreezerFiles;
